@@ -501,11 +501,8 @@ func (e *Env) selectField(v Val, name string) Val {
 		if path == nil {
 			e.fail("no field %s in %s", name, TypeKey(t.Elem()))
 		}
-		addr := v.T
-		for _, i := range path {
-			addr = u.mkSub(addr, i)
-		}
-		return u.goVal(u.load(e.st, addr, ft), ft)
+		fa := e.fieldAddr(v.T, t.Elem(), path)
+		return u.goVal(u.loadPtr(e.st, fa, ft), ft)
 	case *types.Struct:
 		path, ft := fieldPath(t, name)
 		if path == nil {
@@ -528,7 +525,26 @@ func (e *Env) selectField(v Val, name string) Val {
 }
 
 func (e *Env) loadAt(p Val, elem types.Type) Val {
-	return e.u.goVal(e.u.load(e.st, p.T, elem), elem)
+	return e.u.goVal(e.u.loadPtr(e.st, p, elem), elem)
+}
+
+// fieldAddr walks a field path from the struct at addr and returns the address of the last field.
+func (e *Env) fieldAddr(addr Term, ct types.Type, path []int) Val {
+	u := e.u
+	var out Val
+	for n, i := range path {
+		si := u.sorts.structOf(ct)
+		if si.opaque {
+			e.fail("field of opaque struct %s", TypeKey(ct))
+		}
+		if n == len(path)-1 {
+			out = Val{T: u.mkSub(addr, i), Sort: SRef, FBase: addr, FStruct: ct, FIdx: i}
+			break
+		}
+		addr = u.mkSub(addr, i)
+		ct = si.fields[i].typ
+	}
+	return out
 }
 
 func (e *Env) index(v, i Val) Val {
@@ -539,7 +555,8 @@ func (e *Env) index(v, i Val) Val {
 		off := "(soff " + v.T + ")"
 		ix := "(+ " + off + " " + i.T + ")"
 		e.recordIdx(off, ix)
-		t := sel(sel(u.get(e.st, "E_"+es), "(sbase "+v.T+")"), ix)
+		_ = es
+		t := sel(sel(u.get(e.st, u.elemComp(et)), "(sbase "+v.T+")"), ix)
 		return u.goVal(t, et)
 	}
 	if strings.HasPrefix(v.Sort, "(Array ") {
@@ -575,6 +592,14 @@ func (e *Env) evalCall(n ECall) Val {
 			return specVal(u.strLen(v.T, e.inQuant == 0), SInt)
 		}
 		e.fail("len of %s", v.Sort)
+	case "base":
+		// base(s): identity of the backing array of a slice (0 for nil)
+		argn(1)
+		v := e.eval(n.Args[0])
+		if v.Sort != SSlice {
+			e.fail("base of %s", v.Sort)
+		}
+		return specVal("(sbase "+v.T+")", SInt)
 	case "cap":
 		argn(1)
 		v := e.eval(n.Args[0])
@@ -947,11 +972,9 @@ func (e *Env) addrOf(x Expr) Val {
 			if path == nil {
 				e.fail("no field %s", n.Name)
 			}
-			addr := base.T
-			for _, i := range path {
-				addr = u.mkSub(addr, i)
-			}
-			return Val{T: addr, Sort: SRef, Typ: types.NewPointer(ft)}
+			fa := e.fieldAddr(base.T, base.Typ.Underlying().(*types.Pointer).Elem(), path)
+			fa.Typ = types.NewPointer(ft)
+			return fa
 		}
 		st, ok := p.Elem().Underlying().(*types.Struct)
 		if !ok {
@@ -964,11 +987,9 @@ func (e *Env) addrOf(x Expr) Val {
 		if path == nil {
 			e.fail("no field %s in %s", n.Name, TypeKey(p.Elem()))
 		}
-		addr := v.T
-		for _, i := range path {
-			addr = u.mkSub(addr, i)
-		}
-		return Val{T: addr, Sort: SRef, Typ: types.NewPointer(ft)}
+		fa := e.fieldAddr(v.T, p.Elem(), path)
+		fa.Typ = types.NewPointer(ft)
+		return fa
 	case EPtrType:
 		v := e.eval(n.X)
 		return v
